@@ -112,10 +112,10 @@ def refs_wire(refs):
     return dict(kind='other')
 
 
-def dict_req(before, bs, file_base, name, family, desc, version, rev, refs, today, idx):
+def dict_req(before, bs, file_base, name, family, desc, version, rev, refs, today, idx, subdir='sub'):
     files_before = {p: json.loads(v) for p, v in before.items() if p.endswith('.json')}
     return (dict(op='add_basis_from_dict', files=enc(files_before), basis=enc(bs), refs=refs_wire(refs),
-                 req=dict(subdir='sub', file_base=file_base, name=name, family=family, role='orbital', description=desc, version=version,
+                 req=dict(subdir=subdir, file_base=file_base, name=name, family=family, role='orbital', description=desc, version=version,
                           revision_description=rev, data_source='source', today=today)), idx)
 
 
@@ -139,7 +139,9 @@ def run_sequence(item):
     for step in range(nsteps):
         before = snapshot(d)
         g = genbasis.gen_basis(rng, kinds=rng.choice([['plain'], ['plain', 'pople'], ['general', 'ecp'], ['ecponly', 'plain']]))
-        kind = rng.choice(['dict', 'dict', 'dict', 'file', 'components', 'invalid', 'repeat_version', 'taken_name'])
+        kind = rng.choice(['dict', 'dict', 'dict', 'file', 'components', 'components', 'invalid', 'repeat_version', 'taken_name'])
+        # the sub-directory for the component / element files: the usual one, a second one, or one that does not exist yet
+        subdir = rng.choice(['sub', 'sub', 'sub2', 'dir%d' % step])
         if bases and rng.random() < 0.45 and kind in ('dict', 'file'):
             file_base, name, family = rng.choice(bases)          # a new version of an existing basis
             version = str(max(int(v) for v in added.get(name, {'0': 0})) + 1)
@@ -149,6 +151,9 @@ def run_sequence(item):
                 # a file base of which an existing one is a proper prefix ('fb7_1' / 'fb7_12'): the index builder and the retrieval
                 # must keep the two apart
                 file_base = rng.choice(bases)[0] + rng.choice(['2', 'x', '_b'])
+                if rng.random() < 0.4:
+                    # ... or a file base that differs from an existing one only in the case of its letters ('fb7_1' / 'FB7_1')
+                    file_base = rng.choice(bases)[0].upper()
                 if any(fb == file_base for fb, _, _ in bases):
                     file_base = 'fb%d_%d' % (seed % 1000, step)
             name = rng.choice(['My Basis %d', 'my-basis*%d', 'X/Y %d', 'UPPER%d'])
@@ -178,22 +183,22 @@ def run_sequence(item):
                     bad['elements'][z]['ecp_electrons'] = 0
                 expect_fail = True
                 rec['how'] = how
-                out['reqs'].append(dict_req(before, bad, file_base, name, family, 'desc ' + name, version, 'rev ' + version, refs, today, len(out['steps'])))
-                curate.add_basis_from_dict(bad, d, 'sub', file_base, name, family, 'orbital', 'desc ' + name, version, 'rev ' + version, 'source', refs)
+                out['reqs'].append(dict_req(before, bad, file_base, name, family, 'desc ' + name, version, 'rev ' + version, refs, today, len(out['steps']), subdir))
+                curate.add_basis_from_dict(bad, d, subdir, file_base, name, family, 'orbital', 'desc ' + name, version, 'rev ' + version, 'source', refs)
             elif kind == 'repeat_version' and bases:
                 file_base, name, family = rng.choice(bases)
                 version = rng.choice(sorted(added[name]))
                 rec.update(name=name, file_base=file_base, version=version)
                 expect_fail = True
-                out['reqs'].append(dict_req(before, comp, file_base, name, family, 'desc ' + name, version, 'rev', refs, today, len(out['steps'])))
-                curate.add_basis_from_dict(comp, d, 'sub', file_base, name, family, 'orbital', 'desc ' + name, version, 'rev', 'source', refs)
+                out['reqs'].append(dict_req(before, comp, file_base, name, family, 'desc ' + name, version, 'rev', refs, today, len(out['steps']), subdir))
+                curate.add_basis_from_dict(comp, d, subdir, file_base, name, family, 'orbital', 'desc ' + name, version, 'rev', 'source', refs)
             elif kind == 'taken_name' and bases:
                 _, name, family = rng.choice(bases)
                 name = rng.choice([name, name.upper(), name.lower()])
                 rec.update(name=name)
                 expect_fail = True
-                out['reqs'].append(dict_req(before, comp, file_base, name, family, 'desc', version, 'rev', refs, today, len(out['steps'])))
-                curate.add_basis_from_dict(comp, d, 'sub', file_base, name, family, 'orbital', 'desc', version, 'rev', 'source', refs)
+                out['reqs'].append(dict_req(before, comp, file_base, name, family, 'desc', version, 'rev', refs, today, len(out['steps']), subdir))
+                curate.add_basis_from_dict(comp, d, subdir, file_base, name, family, 'orbital', 'desc', version, 'rev', 'source', refs)
             elif kind == 'file':
                 fmt = rng.choice(['gaussian94', 'nwchem', 'turbomole'])
                 src = dict(g)
@@ -202,22 +207,29 @@ def run_sequence(item):
                 p = os.path.join(tmp, 'in_%d_%d%s' % (seed, step, writers.write._writer_map[fmt]['extension']))
                 writers.write_formatted_basis_file(g, p, fmt)
                 rec['fmt'] = fmt
-                curate.add_basis(p, d, 'sub', file_base, name, family, 'orbital', 'desc ' + name, version, 'rev ' + version, 'source', refs, fmt)
-            elif kind == 'components' and [p for p in before if p.startswith('sub/') and p.endswith('.json') and not p.endswith(('element.json',))]:
-                comps = [p for p in before if p.startswith('sub/') and p.count('.') == 2 and p.endswith('.json')]
+                curate.add_basis(p, d, subdir, file_base, name, family, 'orbital', 'desc ' + name, version, 'rev ' + version, 'source', refs, fmt)
+            elif kind == 'components' and [p for p in before if p.count('/') == 1 and p.count('.') == 2 and p.endswith('.json')]:
+                comps = [p for p in before if p.count('/') == 1 and p.count('.') == 2 and p.endswith('.json')]
                 pick = rng.sample(comps, min(len(comps), rng.randrange(1, 3)))
                 rec['comps'] = pick
+                if bases and rng.random() < 0.4:
+                    # again for a (file base, version) that is there already, possibly into a sub-directory that is not: must be refused, nothing overwritten
+                    file_base, name, family = rng.choice(bases)
+                    version = rng.choice(sorted(added[name]))
+                    rec.update(name=name, file_base=file_base, version=version)
+                    expect_fail = True
+                    rec['repeat'] = True
                 files_before = {p: json.loads(v) for p, v in before.items() if p.endswith('.json')}
                 out['reqs'].append((dict(op='add_from_components', files=enc(files_before),
-                                         req=dict(comps=pick, subdir='sub', file_base=file_base, name=name, family=family, role='orbital', description='desc ' + name,
+                                         req=dict(comps=pick, subdir=subdir, file_base=file_base, name=name, family=family, role='orbital', description='desc ' + name,
                                                   version=version, revision_description='rev ' + version, today=today)), len(out['steps'])))
                 want_refs = None
-                curate.add_from_components([os.path.join(d, p) for p in pick], d, 'sub', file_base, name, family, 'orbital', 'desc ' + name, version, 'rev ' + version)
+                curate.add_from_components([os.path.join(d, p) for p in pick], d, subdir, file_base, name, family, 'orbital', 'desc ' + name, version, 'rev ' + version)
             else:
                 kind = 'dict'
                 rec['kind'] = 'dict'
-                out['reqs'].append(dict_req(before, comp, file_base, name, family, 'desc ' + name, version, 'rev ' + version, refs, today, len(out['steps'])))
-                curate.add_basis_from_dict(copy.deepcopy(comp), d, 'sub', file_base, name, family, 'orbital', 'desc ' + name, version, 'rev ' + version, 'source', refs)
+                out['reqs'].append(dict_req(before, comp, file_base, name, family, 'desc ' + name, version, 'rev ' + version, refs, today, len(out['steps']), subdir))
+                curate.add_basis_from_dict(copy.deepcopy(comp), d, subdir, file_base, name, family, 'orbital', 'desc ' + name, version, 'rev ' + version, 'source', refs)
             rec['raised'] = None
         except Exception as e:
             rec['raised'] = '%s: %s' % (type(e).__name__, str(e)[:100])
@@ -235,8 +247,8 @@ def run_sequence(item):
                 rec['bad'].append(('invalid_refused', 'invalid input (%s) was accepted' % rec.get('how')))
             elif after != before:
                 rec['bad'].append(('invalid_noop', 'invalid input (%s) changed the directory: %s' % (rec.get('how'), sorted(set(after) ^ set(before))[:3])))
-        if expect_fail and kind != 'invalid' and rec['raised'] is None and kind in ('repeat_version', 'taken_name') and bases:
-            rec['bad'].append(('refuses_existing', '%s was accepted' % kind))
+        if expect_fail and kind != 'invalid' and rec['raised'] is None and (kind in ('repeat_version', 'taken_name') or rec.get('repeat')) and bases:
+            rec['bad'].append(('refuses_existing', '%s was accepted' % ('add_from_components for an existing (file base, version)' if rec.get('repeat') else kind)))
         # index consistent with the directory
         if 'METADATA.json' in after:
             rg = in_child(regen_index, d)
